@@ -225,8 +225,13 @@ struct Source<'a> {
 impl Iterator for Source<'_> {
     type Item = Result<Val, String>;
     fn next(&mut self) -> Option<Self::Item> {
-        if self.pending || self.failed {
+        if self.pending {
             return None;
+        }
+        if self.failed {
+            // the world says every read beyond this point fails, not only the first one
+            flag_iofail();
+            return Some(Err("@@IOFAIL@@read error".into()));
         }
         let item = if self.done { None } else { self.iter.next() };
         if !matches!(item, Some(Ok(_))) {
@@ -247,7 +252,7 @@ impl Iterator for Source<'_> {
                 flag_pending();
                 Some(Err("@@PENDING@@".into()))
             }
-            None => match self.fail_after.take() {
+            None => match self.fail_after.clone() {
                 Some(e) => {
                     self.failed = true;
                     flag_iofail();
